@@ -20,3 +20,43 @@ pub open spec fn wf_mms(ms: Seq<&MemberMapping>) -> bool {
 pub open spec fn abs_mms(ms: Seq<&MemberMapping>) -> Seq<Entry> {
     Seq::new(ms.len(), |i: int| abs_mm(*ms[i]))
 }
+
+// ---- the mapper's frame iterator as a ghost value ----
+pub open spec fn deref_mms<'a>(r: Seq<&MemberMapping<'a>>) -> Seq<MemberMapping<'a>> { Seq::new(r.len(), |i: int| *r[i]) }
+
+#[verifier::prophetic]
+pub open spec fn mit_wf(it: RemappedFrameIter) -> bool {
+    match it.inner {
+        None => true,
+        Some((frame, members)) => members.obeys_prophetic_iter_laws() && members.decrease() is Some
+            && wf_mms(members.remaining()) && frame.line < 0xffff_ffff,
+    }
+}
+#[verifier::prophetic]
+pub open spec fn mit_members<'m>(it: RemappedFrameIter<'m>) -> Seq<MemberMapping<'m>> {
+    match it.inner { None => Seq::empty(), Some((frame, members)) => deref_mms(members.remaining()) }
+}
+#[verifier::prophetic]
+pub open spec fn mit_answers(it: RemappedFrameIter) -> Seq<AFrame> {
+    match it.inner {
+        None => Seq::empty(),
+        Some((frame, members)) =>
+            if frame.parameters is None { retrace(abs_mms(members.remaining()), aframe(frame)) }
+            else { by_params(abs_mms(members.remaining()), aframe(frame)) },
+    }
+}
+
+// ---- representation invariant of a mapper built from a mapping in the properties' domain (builder ASSUMED) ----
+pub open spec fn wf_vec(v: Seq<MemberMapping>) -> bool {
+    forall|i: int| 0 <= i < v.len() ==> entry_in_domain(abs_mm(#[trigger] v[i]))
+}
+pub open spec fn wf_class_members(cm: ClassMembers) -> bool {
+    wf_vec(cm.all_mappings@)
+    && forall|pk: &str| #[trigger] cm.mappings_by_params@.contains_key(pk) ==> wf_vec(cm.mappings_by_params@[pk]@)
+}
+pub open spec fn wf_mapper(m: ProguardMapper) -> bool {
+    forall|ck: &str| #[trigger] m.classes@.contains_key(ck) ==>
+        forall|mk: &str| #[trigger] m.classes@[ck].members@.contains_key(mk) ==> wf_class_members(m.classes@[ck].members@[mk])
+}
+pub open spec fn has_key<V>(m: Map<&str, V>, k: &str, q: Seq<char>) -> bool { m.contains_key(k) && k@ == q }
+pub open spec fn no_key<V>(m: Map<&str, V>, q: Seq<char>) -> bool { forall|k: &str| #[trigger] m.contains_key(k) ==> k@ != q }
